@@ -89,7 +89,13 @@ function genVersion (rng, fi, vi, kind, o) {
       case 'builtin-callback': {
         // the Error is created in a callback run by a JS builtin: a frame without a file name sits between
         add(`function ${N}c (x) {`)
-        site.cbLine = add(`  return [x].map(${N})[0]`)
+        if ((fi + vi + k) % 2 === 1) {
+          // round s: ... or by node's module loader - the module requires something whose loading runs the
+          // callback (a dependency that throws while it is being loaded): frames of node:internal/modules sit between
+          add(`  globalThis.__simLoadCb = ${N}; globalThis.__simLoadArg = x`)
+          site.cbLine = add("  return require('sim:call-during-load')")
+          site.viaLoader = true
+        } else site.cbLine = add(`  return [x].map(${N})[0]`)
         add('}')
         add(`function ${N} (y) {`)
         site.line = add(plain ? "  return new Error('in map')" : "  return new Error(y + 'm')")
